@@ -76,7 +76,7 @@ def dump_graph(py4hw, objs, wires, ports, name_of):
     ix = lambda d, x: d.get(id(x), UNKNOWN)
     def tbl(d, idx):
         out = []
-        for k, v in d.items(): out += [name_of(k), ix(idx, v)]
+        for k, v in sorted((name_of(k), ix(idx, v)) for k, v in d.items()): out += [k, v]      # sorted by name (see Build.v ztbl)
         return out
     O = []
     for o in objs:
@@ -220,6 +220,13 @@ DIRECTED = {
     'undriven_ports': [('NewLogic', None, 0, False), ('NewWire', 0, 0, 1), ('NewWire', 0, 1, 1), ('NewLogic', 0, 1, True), ('NewLogic', 0, 2, True),
                        ('AddOut', 1, 0, 0), ('AddIn', 2, 0, 0), ('AddIn', 2, 1, 1), ('NewLogic', 0, 3, False), ('NewLogic', 3, 0, True),
                        ('AddIn', 4, 0, 0), ('AddOut', 4, 1, 1)],
+    'undriven_out_no_sinks': [('NewLogic', None, 0, False), ('NewWire', 0, 0, 1), ('NewLogic', 0, 1, False), ('AddOut', 1, 0, 0)],
+    'undriven_out_with_sink': [('NewLogic', None, 0, False), ('NewWire', 0, 0, 1), ('NewLogic', 0, 1, False), ('AddOut', 1, 0, 0),
+                               ('NewLogic', 0, 2, True), ('AddIn', 2, 0, 0)],
+    'undriven_in_no_sinks': [('NewLogic', None, 0, False), ('NewWire', 0, 0, 1), ('NewLogic', 0, 1, False), ('AddIn', 1, 0, 0)],
+    'undriven_deep': [('NewLogic', None, 0, False), ('NewWire', 0, 0, 1), ('NewWire', 0, 1, 1), ('NewLogic', 0, 1, True), ('AddOut', 1, 0, 0),
+                      ('NewLogic', 0, 2, False), ('NewLogic', 2, 0, False), ('NewLogic', 3, 0, False), ('AddIn', 4, 0, 0), ('AddOut', 4, 1, 1),
+                      ('NewLogic', 0, 3, False), ('AddIn', 5, 0, 0)],
     'two_roots': [('NewLogic', None, 0, False), ('NewLogic', None, 0, True), ('NewWire', 0, 0, 1), ('NewWire', 1, 0, 1), ('AddOut', 1, 0, 0),
                   ('AddOut', 1, 0, 1), ('AddOut', 1, 0, 0), ('Reparent', 0, 1), ('ReparentAndRename', 0, 1, 1)],
 }
